@@ -111,10 +111,10 @@ func Witnesses() []*Case {
 	add("tv-err", tygen.TV{S: "!err"})
 	add("tp-ptr", &tygen.TP{S: "q\"q"})
 	add("raw", json.RawMessage(` { "a" : [ 1 , 2 ] } `))
-	for i, t := range []string{" 1 ", "[1, 2]", "{ }", "\t\"a\" ", "[ ]", " null", "\n0", "{\"a\": 1}", "{", "1 2", "01", "[1,]"} {
+	for i, t := range []string{" 1 ", "[1, 2]", "{ }", "\t\"a\" ", "[ ]", " null", "\n0", "{\"a\": 1}", "{x", "1 2", "01", "[1,]"} {
 		add(fmt.Sprintf("raw-short%d", i), json.RawMessage(t))
 	}
-	for i, t := range []string{"[1,2,]", "{\"a\":}", "nul", "{\"x\":01}", "[1 2]", "{\"a\" 1}", "\"\\x\"", "-", "1.e2", "[\"a\",]"} {
+	for i, t := range []string{"[1,2,]", "{\"a\":}", "nuls", "{\"x\":01}", "[1 2]", "{\"a\" 1}", "\"\\x\"", "-", "1.e2", "[\"a\",]"} {
 		add(fmt.Sprintf("raw-dense%d", i), json.RawMessage(t))
 		add(fmt.Sprintf("raw-dense-field%d", i), struct {
 			A int
